@@ -129,8 +129,8 @@ def _ref_unsqueeze(t, a, A):
 def _(sg, x, A): return x[0].unsqueeze(_td(A["dim"]))
 @op("reshape", lambda t, a, A: a[0].reshape(tuple(A["shape"])))
 def _(sg, x, A): return x[0].reshape(tuple(A["shape"]))
-@op("movedim", lambda t, a, A: a[0].movedim(A["src"], A["dst"]))
-def _(sg, x, A): return x[0].movedim(A["src"], A["dst"])
+@op("movedim", lambda t, a, A: a[0].movedim(_td(A["src"]), _td(A["dst"])))
+def _(sg, x, A): return x[0].movedim(_td(A["src"]), _td(A["dst"]))
 @op("transpose", lambda t, a, A: a[0].transpose(A["d0"], A["d1"]))
 def _(sg, x, A): return x[0].transpose(A["d0"], A["d1"])
 @op("flatten", lambda t, a, A: a[0].flatten(A["start"], A["end"]))
@@ -369,6 +369,15 @@ def cases(tier, what="forward"):
                 add("transpose", [s], {"d0": a, "d1": b})
                 add("flatten", [s], {"start": a, "end": b})
         add("flatten_default", [s])
+        # several axes moved at once: every pair of distinct sources x every pair of distinct destinations (any order, either sign)
+        if 2 <= r <= 3:
+            for src in itertools.permutations(range(r), 2):
+                for dst in itertools.permutations(range(r), 2):
+                    add("movedim", [s], {"src": list(src), "dst": list(dst)})
+                    add("movedim", [s], {"src": [src[0] - r, src[1]], "dst": [dst[0], dst[1] - r]})
+        if r == 3:
+            for src in itertools.permutations(range(3), 3):
+                add("movedim", [s], {"src": list(src), "dst": [2, 0, 1]}); add("movedim", [s], {"src": [0, 1, 2], "dst": list(src)})
         for d in lattice.dims(r):
             for size in range(1, s[d] + (2 if wide else 1)):
                 for step in range(1, s[d] + 2):
